@@ -94,4 +94,32 @@ def requiredFields (env : Env) (fuel : Nat) (n : TName) : List Bytes :=
 
 def includeFuel (env : Env) : Nat := env.length + 1
 
+def zeroPrim : Prim → Value
+  | .i32 => .i32 0 | .i64 => .i64 0 | .f32 => .f32 0 | .f64 => .f64 0
+  | .bool => .bool false | .str => .str [] | .bytes => .bytes []
+
+/-- the Go zero value of the generated type: what a required field holds when the document did
+not carry it (optional and defaulted fields are nil pointers, i.e. absent) -/
+def zeroValue (env : Env) : Nat → Ty → Value
+  | 0, _ => .record []
+  | _ + 1, .prim p => zeroPrim p
+  | _ + 1, .arr _ => .arr []
+  | _ + 1, .map _ => .map []
+  | fuel + 1, .ref n =>
+    match env.find n with
+    | some (.typeref p) => zeroPrim p
+    | some (.enum _) => .enum 0
+    | some (.fixed size) => .fixed (List.replicate size 0)
+    | some (.union _ _) => .union []
+    | some (.record _ _) =>
+      .record (((allFields env (includeFuel env) n).filter (fun f => !f.optOrDefault)).map
+        (fun f => (f.name, zeroValue env fuel f.ty)))
+    | none => .record []
+
+/-- required fields the document did not carry hold their zero value in the Go struct -/
+def fillRequired (env : Env) (fields : List Field) (fs : List (Bytes × Value)) : List (Bytes × Value) :=
+  fields.foldl (fun acc f =>
+    if f.optOrDefault || acc.any (·.1 == f.name) then acc
+    else acc ++ [(f.name, zeroValue env (includeFuel env) f.ty)]) fs
+
 end Restli.Codec
